@@ -23,7 +23,7 @@ RULE = (
     "evaluated in a loop with changing nested structure, unusual but valid spellings of the call and of the "
     "hand-written value (parenthesised callee, comments inside the call, trailing commas, `dict(a=1)`, "
     "implicit string concatenation, operators), containers with star-expressions compared once, in a loop or "
-    "never; files with unix, dos or mixed line endings; all 16 approved sets. Oracle in process: collecting the "
+    "never; outsourced values; files with unix, dos or mixed line endings; all 16 approved sets. Oracle in process: collecting the "
     "changes, apply_all and fix_all raise nothing, the replacements recorded for a file are pairwise "
     "non-overlapping (checked on the recorder, independently of the internal assert) and the result parses. "
     "Oracle in a real session (started in the project directory, in its parent or in a sibling directory): no INTERNALERROR, exit status in {0, 1}, the inline-snapshot report terminates, "
@@ -36,7 +36,7 @@ ASSUMPTIONS = [
 
 FRAGS = ["site", "site", "raise", "nested_replace", "nested_shift", "nested_dict", "nested_call", "cmp_raises",
          "eq_raises", "unused", "empty_sub", "access_only", "two_ops", "loop_struct", "nested_equal", "spelling",
-         "star"]
+         "star", "ext"]
 
 
 @st.composite
@@ -122,6 +122,10 @@ def render_frag(f):
         return lines, helpers
     if k == "raise":
         return [f"raise ValueError({n})"], []
+    if k == "ext":
+        # outsourced data: created, fixed (another type before) or unchanged in a list
+        return [[f"assert outsource('data {n}') == snapshot()", f"assert outsource(b'bytes {n}') == snapshot(5)",
+                 f"assert [outsource('d{n}'), 1] == snapshot([1])"][n % 3]], []
     if k == "nested_replace":
         return [f"assert {f['obs']} == snapshot([{f['inner']}, 2])"], []
     if k == "nested_shift":
@@ -165,7 +169,7 @@ def render_frag(f):
 
 
 def render(case):
-    header = ["from inline_snapshot import snapshot, Is", "from vf_prelude import *", "", "LOG = []",
+    header = ["from inline_snapshot import snapshot, Is, outsource", "from vf_prelude import *", "", "LOG = []",
               "BASE = [1, 2]", "DBASE = {'a': 1, 'b': 2}", "PT = Point(x=1, y=2)", "NTV = NT(a=1, b=2)", "",
               "class Raiser:", "    def __eq__(self, other):", "        raise RuntimeError('eq')", ""]
     helpers = []
